@@ -60,6 +60,17 @@ def options(name):
             UnDirectedEdge: {"v1side": "", "v2side": ""},
             TwoEndedLink: {"v1side": "o", "v2side": "o"},
         }
+    if name == "T3":
+        # a class whose declaration is written by a user function (same shape as the stock one,
+        # so it parses back); VA falls back to Vertex, VB has its own entry
+        return {
+            Vertex: {"type": "object", "show_attrs": ["^i$"], "title_format": "v{i}"},
+            VB: {"type": "map", "show_attrs": ["^i$"], "title_format": "b{i}", "user_render_func": _user_render},
+            DirectedEdge: {"v1side": "", "v2side": ">"},
+            UnDirectedEdge: {"v1side": "", "v2side": ""},
+            SubUndirected: {"v1side": "#", "v2side": "#"},
+            TwoEndedLink: {"v1side": "+", "v2side": ""},
+        }
     return {
         Vertex: {"type": "object", "show_attrs": ["^i$"], "title_format": "v{i}"},
         VA: {"type": "class", "show_attrs": ["^i$"], "title_format": "a{i}"},
@@ -68,6 +79,14 @@ def options(name):
         SubDirected: {"v1side": "<", "v2side": "*"},
         TwoEndedLink: {"v1side": "x", "v2side": ""},
     }
+
+
+USER_CALLS = []
+
+
+def _user_render(vertex, options):
+    USER_CALLS.append(vertex)
+    return f"map b{vertex.i} <<{type(vertex).__name__}>> {{\n}}\n"
 
 
 def nearest(cls, table):
@@ -84,6 +103,7 @@ def title(v, table):
     return o["title_format"].format(i=v.i)
 
 
+TABLES = ("T1", "T2", "T3")
 DECL = re.compile(r"^(\w+) (\S+) <<(\w+)>> \{$")
 REL = re.compile(r"^(\S+) (\S*)--(\S*) (\S+)$")
 
@@ -104,10 +124,13 @@ def judge(w, members, tname):
     uni = Universe(vertices=[w.v[i] for i in members])
     mem = [w.v[i] for i in members]
     table = options(tname)
+    del USER_CALLS[:]
     try:
         out = plantuml.render_to_plantuml_src(uni, options(tname))
     except Exception as e:  # noqa: BLE001
         return f"raised-{type(e).__name__}", None
+    if tname == "T3" and sorted(map(id, USER_CALLS)) != sorted(id(v) for v in mem if isinstance(v, VB)):
+        return "user_render_func-not-called-once-per-member-of-its-class", out
     if not members:
         return (None if out is None else "empty-universe-not-None"), out
     if not isinstance(out, str):
@@ -178,7 +201,7 @@ def per_state(spec, seq, w0):
         spec2 = dict(spec, vclasses=list(classes[:nv]))
         w, _ = engine_g.build(spec2, seq, validate=False)
         for members in member_lists(nv):
-            for tname in ("T1", "T2"):
+            for tname in TABLES:
                 evals += 1
                 nontriv += bool(members) and bool(w.l)
                 bad, out = judge(w, members, tname)
